@@ -869,6 +869,9 @@ def sub_build(ctx, rng, name, obs, lat, lon, extra, **kw):
         kw["directed"] = as_flag(rng, True)
     elif name == "HavlinClimateNetwork":
         kw["max_delay"] = extra["max_delay"]
+    elif name == "RainfallClimateNetwork" and "et" in extra:
+        # the quantiles between which rainfall counts as an event
+        kw["event_threshold"] = extra["et"]
     return ctx.call(cls, data, silence_level=3, **kw)
 
 
@@ -892,7 +895,9 @@ def sub_case(ctx, k, cid):
     obs, lat, lon = make_data(rng, n, T,
                               positive=name == "RainfallClimateNetwork")
     extra = {"n1": int(rng.integers(1, n)),
-             "max_delay": int(rng.integers(2, 6))}
+             "max_delay": int(rng.integers(2, 6)),
+             "et": [(0, 1), (0.5, 1), (0.8, 1.0), (0.25, 0.9)][
+                 int(rng.integers(0, 4))]}
     es = name == "EventSeriesClimateNetwork"
     if es:
         meth = str(rng.choice(["ES", "ECA"]))
